@@ -1295,16 +1295,41 @@ func oracle(c core.Case, out []string) []core.Finding {
 			}
 			// (c) a witness that returned a different header it can back by a complete valid chain
 			// from a trusted header must produce the attack error and evidence for that witness
-			if okLog && res != "err attack" && len(added) > 0 {
+			if okLog && res != "err attack" && res != "err panic" && res != "err hang" {
+				// the header under comparison: what the primary path delivered for the compared height
+				// before the first cross-check reply
+				target := -1
+				var cmpH int64
 				for _, r := range replies {
-					if r.op != i || !r.compare || r.blk == nil {
+					if r.op == i && r.compare && r.height > 0 {
+						cmpH = r.height
+						break
+					}
+				}
+				for _, r := range replies {
+					if r.op != i {
 						continue
 					}
-					for _, s := range added {
-						if r.blk.h == s.h && r.blk.hashID != s.hash && e.backs(p, r.prov, replies, prev, r.blk, byHash, now, c, i) {
-							fs = append(fs, core.Finding{Fingerprint: "light.detectDivergence.backed-conflicting-header-not-reported",
-								Desc: fmt.Sprintf("op %d (%s): witness %d returned %d:%d, different from the accepted %d:%d, and serves a complete valid chain to it, yet the call returned %q", i, op, r.prov, r.blk.h, r.blk.hashID, s.h, s.hash, res)})
-						}
+					if r.compare {
+						break
+					}
+					if r.blk != nil && r.blk.h == cmpH {
+						target = r.blk.hashID
+					}
+				}
+				for _, s := range added {
+					if s.h == cmpH {
+						target = s.hash
+					}
+				}
+				for _, r := range replies {
+					if target < 0 || r.op != i || !r.compare || r.blk == nil || r.height != cmpH || r.blk.h != cmpH || r.blk.hashID == target {
+						continue
+					}
+					if e.backs(p, r.prov, replies, prev, r.blk, byHash, now, c, i) {
+						fs = append(fs, core.Finding{Fingerprint: "light.detectDivergence.backed-conflicting-header-not-reported",
+							Desc: fmt.Sprintf("op %d (%s): during the cross-check of header %d:%d witness %d returned %d:%d and serves a complete valid chain to it from the trusted header, yet the call returned %q instead of the attack error", i, op, cmpH, target, r.prov, r.blk.h, r.blk.hashID, res)})
+						break
 					}
 				}
 			}
@@ -1395,16 +1420,16 @@ func (e *env) backs(p params, provID int, replies []reply, prev []storeEntry, bl
 		return false
 	}
 	blk = at[blk.h]
-	// the latest trusted header below blk
+	// the trusted header the client starts from: the highest one below blk; the witness must hold it
 	var root *blkDesc
-	for _, s := range prev {
-		if s.h < blk.h {
-			for _, b := range byHash[s.hash] {
-				if at[b.h] != nil && at[b.h].hashID == b.hashID {
-					root = at[b.h]
-				}
-			}
+	var top *storeEntry
+	for k := range prev {
+		if prev[k].h < blk.h {
+			top = &prev[k]
 		}
+	}
+	if top != nil && at[top.h] != nil && at[top.h].hashID == top.hash {
+		root = at[top.h]
 	}
 	if root == nil {
 		return false
